@@ -411,7 +411,7 @@ func TestInjectedErrorsMapToTheirClass(t *testing.T) {
 		vkit.S.Eval()
 		vkit.S.Label(fmt.Sprintf("kinds_in_chain=%d", len(kinds)))
 		vkit.S.Label(fmt.Sprintf("depth=%d", min(ge.Depth, 3)))
-		vkit.S.Label("status=" + strconv.Itoa(d.Status))
+		vkit.S.Label("status_class=" + strconv.Itoa(d.Status/100) + "xx")
 		vkit.S.LabelIf(o.Verbose, "verbose")
 		vkit.S.LabelIf(o.Verbose && len(d.Body) != 0, "verbose_body_present")
 
